@@ -111,6 +111,15 @@ func genSingleStatus(r *fw.Rand) api.TrackerStatus {
 func genMaddrs(r *fw.Rand, n int, withPeer bool) []api.Multiaddr {
 	var out []api.Multiaddr
 	for i := 0; i < n; i++ {
+		if r.Chance(1, 5) {
+			// well-formed addresses whose text needs escaping in a JSON string
+			odd := r.Pick(`/dns4/host\name.example/tcp/9096`, `/dns4/win\host/tcp/9096`, `/unix/tmp/my"cluster".sock`, "/dns4/tab\there.example/tcp/1", "/unix/tmp/a\u0041b.sock",
+				"/dns4/h\u00e9.example/tcp/4001", "/unix/tmp/quote'and<angle>&amp.sock", "/dns4/ctl\x01x.example/tcp/2")
+			if m, err := ma.NewMultiaddr(odd); err == nil {
+				out = append(out, api.NewMultiaddrWithValue(m))
+				continue
+			}
+		}
 		out = append(out, api.NewMultiaddrWithValue(gen.Multiaddr(r, withPeer)))
 	}
 	return out
